@@ -18,3 +18,5 @@ find $C/prof -size 0 -delete; ls $C/prof/*.profraw > $C/list.txt; $LLVM/llvm-pro
 $LLVM/llvm-cov report $C/target/debug/jbkverif -instr-profile=$C/all.profdata --ignore-filename-regex='(registry|rustc|harness)' > $C/report.txt 2>/dev/null || true
 $LLVM/llvm-cov export $C/target/debug/jbkverif -instr-profile=$C/all.profdata --ignore-filename-regex='(registry|rustc|harness)' -format=lcov > $C/lcov.info 2>/dev/null || true
 echo "report: $C/report.txt  lcov: $C/lcov.info"
+# children started with a cleaned environment write default_*.profraw into their working directory: remove them
+rm -f /repo/default_*.profraw /verif/harness/default_*.profraw /verif/default_*.profraw
